@@ -18,6 +18,7 @@ from .pyexpr import TranslateError
 
 # (key, file, class or None, function)
 FUNCS = [
+    # datetime_from_unicode_iso and duration_to_unicode are translated semantically by c08sem.py (Gen/C08Sem.v)
     # -- C08 / C05: primitive text codecs
     ('out_integer_to_unicode', 'spyne/protocol/_outbase.py', 'OutProtocolBase', 'integer_to_unicode'),
     ('out_decimal_to_unicode', 'spyne/protocol/_outbase.py', 'OutProtocolBase', 'decimal_to_unicode'),
@@ -27,7 +28,6 @@ FUNCS = [
     ('out_date_to_unicode', 'spyne/protocol/_outbase.py', 'OutProtocolBase', 'date_to_unicode'),
     ('out_datetime_to_unicode', 'spyne/protocol/_outbase.py', 'OutProtocolBase', 'datetime_to_unicode'),
     ('out__datetime_to_unicode', 'spyne/protocol/_outbase.py', 'OutProtocolBase', '_datetime_to_unicode'),
-    ('out_duration_to_unicode', 'spyne/protocol/_outbase.py', 'OutProtocolBase', 'duration_to_unicode'),
     ('out_byte_array_to_unicode', 'spyne/protocol/_outbase.py', 'OutProtocolBase', 'byte_array_to_unicode'),
     ('in_integer_from_bytes', 'spyne/protocol/_inbase.py', 'InProtocolBase', 'integer_from_bytes'),
     ('in_decimal_from_unicode', 'spyne/protocol/_inbase.py', 'InProtocolBase', 'decimal_from_unicode'),
@@ -35,7 +35,6 @@ FUNCS = [
     ('in_time_from_unicode', 'spyne/protocol/_inbase.py', 'InProtocolBase', 'time_from_unicode'),
     ('in_date_from_unicode_iso', 'spyne/protocol/_inbase.py', 'InProtocolBase', 'date_from_unicode_iso'),
     ('in_date_from_unicode', 'spyne/protocol/_inbase.py', 'InProtocolBase', 'date_from_unicode'),
-    ('in_datetime_from_unicode_iso', 'spyne/protocol/_inbase.py', 'InProtocolBase', 'datetime_from_unicode_iso'),
     ('in_duration_from_unicode', 'spyne/protocol/_inbase.py', 'InProtocolBase', 'duration_from_unicode'),
     ('in__parse_datetime_iso_match', 'spyne/protocol/_inbase.py', None, '_parse_datetime_iso_match'),
     ('in_uuid_from_unicode', 'spyne/protocol/_inbase.py', 'InProtocolBase', 'uuid_from_unicode'),
